@@ -126,6 +126,8 @@ def select(mask_reader, n):
     sel_app = lambda t: SV(SEL(znum(t), *frees))
     rank_app = lambda j: SV(RANK(znum(j), *frees))
     cur().qfacts.append(("select-increasing", cnt, sel_app, rank_app))
+    if not is_conc(cnt):
+        cur().assume(sv.and_(sv.cmp(">=", cnt, 0), sv.cmp("<=", cnt, n)))       # a count of positions of [0, n)
     return A.new_arr((A.simp(cnt),), lambda idx: sel_app(idx[0]), "int"), sel_app, rank_app, cnt
 
 
